@@ -310,12 +310,25 @@ Record dp_rel (td : option transport_dict) (n : nat) (fs done rest : list (Z * b
   r_mraw : m_raw (mp_msg st) = Some (ser fs)
 }.
 
+(* the state when the loop is left at the CheckSum field: fieldIndex is the index of that field *)
 Definition dp_final (td : option transport_dict) (n : nat) (fs : list (Z * bytes)) (st : mparser) : Prop :=
   m_fields (mp_msg st) = map init_of fs ++ repeat tv_zero (n - length fs) /\
   m_header (mp_msg st) = fold_left (addH td) fs hdr0 /\
   m_body (mp_msg st) = fold_left (addB td) fs body0 /\
   m_trailer (mp_msg st) = fold_left (addT td) fs trl0 /\
-  m_raw (mp_msg st) = Some (ser fs).
+  m_raw (mp_msg st) = Some (ser fs) /\
+  S (mp_field_index st) = length fs.
+
+(* the message doParsing hands back: fields = fields[:fieldIndex+1] has dropped the slots that were not used *)
+Definition dp_msg (td : option transport_dict) (fs : list (Z * bytes)) (m : message) : Prop :=
+  m_fields m = map init_of fs /\
+  m_header m = fold_left (addH td) fs hdr0 /\
+  m_body m = fold_left (addB td) fs body0 /\
+  m_trailer m = fold_left (addT td) fs trl0 /\
+  m_raw m = Some (ser fs).
+
+Lemma firstn_init_exact : forall (fs : list (Z * bytes)) (zs : list tv), firstn (length fs) (map init_of fs ++ zs) = map init_of fs.
+Proof. intros fs zs. rewrite <- (map_length init_of fs). apply firstn_app_exact. Qed.
 
 Lemma fold_left_snoc {A S} (g : S -> A -> S) (l : list A) (x : A) (s : S) : fold_left g (l ++ [x]) s = g (fold_left g l s) x.
 Proof. rewrite fold_left_app. reflexivity. Qed.
@@ -389,8 +402,8 @@ Proof.
   - (* the last field: CheckSum *)
     cbn [last] in Hlast. rewrite Hlast. rewrite Z.eqb_refl. eexists. split; [reflexivity|].
     assert (Efs : fs = done ++ [f]) by exact Hsplit.
-    unfold dp_final. rewrite F1, F5, F6, F7, F8, Efields'. unfold h', b', t'. rewrite Hh, Hb, Ht, <- !fold_left_snoc, <- Efs.
-    repeat split; reflexivity.
+    unfold dp_final. rewrite F1, F3, F5, F6, F7, F8, Efields'. unfold h', b', t'. rewrite Hh, Hb, Ht, <- !fold_left_snoc, <- Efs.
+    repeat split; try reflexivity. rewrite Efs, app_length. unfold fi. cbn [length]. lia.
   - rewrite removelast_cons2 in Hmid. apply Forall_cons_iff in Hmid as [Hf10 Hmid'].
     replace (fst f =? TAG_CHECK_SUM) with false by lia.
     set (st3 := if negb (mp_found_body st2) then mp_set_msg st2 (msg_set_body_bytes (mp_msg st2) (mp_raw_bytes st2)) else st2).
@@ -504,7 +517,7 @@ Proof. unfold dp_fields_length. induction k as [|k IH]; cbn [repeat fold_right];
 
 (* a framed message is parsed up to the final BodyLength comparison, and the message then holds exactly the wire fields *)
 Lemma do_parsing_framed : forall fs td ad, c11_framed fs = true -> ad_no_group_start ad fs ->
-  exists m, dp_final td (count_byte SOH (ser fs)) fs (mk_mp m [] 0 0 [] false false) /\
+  exists m, dp_msg td fs m /\
     do_parsing (ser fs) td ad =
       match fm_get_int (m_header m) TAG_BODY_LENGTH with
       | Ok bl => if c11_body_length fs =? bl then Ok m else Err E_BODY_LENGTH
@@ -550,16 +563,18 @@ Proof.
   { rewrite last_last. reflexivity. }
   { rewrite removelast_last. apply Forall_forall. intros f Hf. rewrite Forall_forall in Hmid. apply (Hmid f Hf). }
   rewrite E4. cbn [bind].
-  destruct F4 as (G1 & G2 & G3 & G4 & G5).
+  destruct F4 as (G1 & G2 & G3 & G4 & G5 & G6).
   match goal with |- context [fm_get_int (m_header (msg_set_body_bytes ?x ?y)) 9] => set (M := msg_set_body_bytes x y) end.
-  assert (HM : m_fields M = m_fields (mp_msg st4) /\ m_header M = m_header (mp_msg st4) /\ m_body M = m_body (mp_msg st4) /\
-               m_trailer M = m_trailer (mp_msg st4) /\ m_raw M = m_raw (mp_msg st4)).
-  { unfold M. destruct (mp_found_trailer st4 && negb (mp_found_body st4)); repeat split; reflexivity. }
+  assert (HM : m_fields M = firstn (S (mp_field_index st4)) (m_fields (mp_msg st4)) /\ m_header M = m_header (mp_msg st4) /\
+               m_body M = m_body (mp_msg st4) /\ m_trailer M = m_trailer (mp_msg st4) /\ m_raw M = m_raw (mp_msg st4)).
+  { unfold M. cbn [mp_set_msg mp_found_trailer mp_found_body].
+    destruct (mp_found_trailer st4 && negb (mp_found_body st4)); repeat split; reflexivity. }
   destruct HM as (M1 & M2 & M3 & M4 & M5).
+  rewrite G6, G1, firstn_init_exact in M1.
   exists M. split.
-  - unfold dp_final. cbn [mp_msg]. rewrite M1, M2, M3, M4, M5. repeat split; assumption.
+  - unfold dp_msg. rewrite M1, M2, M3, M4, M5. repeat split; assumption.
   - destruct (fm_get_int (m_header M) 9); try reflexivity.
-    rewrite M1, G1, dp_fields_length_app, dp_fields_length_init, dp_fields_length_zero, Z.add_0_r. reflexivity.
+    rewrite M1, dp_fields_length_init. reflexivity.
 Qed.
 
 (* ---------- what the section maps hold after the parse ---------- *)
@@ -600,10 +615,10 @@ Proof. intros. unfold addB, cond_add. destruct (is_header_field (fst f) td), (is
 Lemma fold_left_ext {A S} (g1 g2 : S -> A -> S) : (forall s a, g1 s a = g2 s a) -> forall l s, fold_left g1 l s = fold_left g2 l s.
 Proof. intros H. induction l as [|a l IH]; intros s; cbn; [reflexivity|]. rewrite H. apply IH. Qed.
 
-Lemma final_retrieval : forall td n fs m t v, dp_final td n fs (mk_mp m [] 0 0 [] false false) ->
+Lemma final_retrieval : forall td fs m t v, dp_msg td fs m ->
   c11_last_value fs t = Some v -> fm_get_bytes (parsed_section td t m) t = Ok v.
 Proof.
-  intros td n fs m t v (_ & Hh & Hb & Ht & _) Hlast. cbn [mp_msg] in *. unfold parsed_section, fm_get_bytes.
+  intros td fs m t v (_ & Hh & Hb & Ht & _) Hlast. unfold parsed_section, fm_get_bytes.
   destruct (is_header_field t td) eqn:Eh.
   - rewrite Hh, addH_cond, fold_cond_add_lookup, Eh, Hlast. reflexivity.
   - destruct (is_trailer_field t td) eqn:Et.
@@ -637,11 +652,12 @@ Proof.
   pose proof (len_nonneg (ser_field f)). destruct (c11_counts (fst f)); lia.
 Qed.
 
-(* C11: a well-formed wire message is accepted; raw bytes unchanged; the field array is the wire's fields in order
-   (then zero entries if XMLData held SOH bytes); every field is found in the section of its tag, last occurrence wins *)
+(* C11: a well-formed wire message is accepted; raw bytes unchanged; the field array is exactly the wire's fields in
+   order (also when XMLData held SOH bytes: the slots allocated for those are dropped); every field is found in the
+   section of its tag, last occurrence wins *)
 Theorem parse_fidelity : forall fs td ad, c11_wire_ok fs = true -> ad_no_group_start ad fs ->
   exists m, do_parsing (ser fs) td ad = Ok m /\ m_raw m = Some (ser fs) /\
-    m_fields m = map init_of fs ++ repeat tv_zero (count_byte SOH (ser fs) - length fs) /\
+    m_fields m = map init_of fs /\
     forall t v, c11_last_value fs t = Some v -> fm_get_bytes (parsed_section td t m) t = Ok v.
 Proof.
   intros fs td ad H Hng. unfold c11_wire_ok in H. apply andb_true_iff in H as [Hfr H9].
@@ -652,14 +668,14 @@ Proof.
   { clear -Hv9. revert Hv9. generalize (itoa (c11_body_length fs)). induction v9 as [|x v IH]; intros [|y w] Hq; cbn in Hq; try discriminate; [reflexivity|].
     apply andb_true_iff in Hq as [Hx Hw]. f_equal; [lia|apply IH; exact Hw]. }
   assert (Hget : fm_get_int (m_header m) TAG_BODY_LENGTH = Ok (c11_body_length fs)).
-  { pose proof (final_retrieval td _ fs m TAG_BODY_LENGTH v9 Hfin) as Hr. rewrite Efs in Hr at 1.
+  { pose proof (final_retrieval td fs m TAG_BODY_LENGTH v9 Hfin) as Hr. rewrite Efs in Hr at 1.
     specialize (Hr (framed_body_length_value v8 v9 v35 mid v10 Hmid)).
     unfold parsed_section in Hr. replace (is_header_field TAG_BODY_LENGTH td) with true in Hr by reflexivity.
     unfold fm_get_int. rewrite Hr. cbn [bind]. unfold fix_int_read. rewrite Ev9, atoi_itoa; [reflexivity|].
     pose proof (c11_body_length_nonneg fs). unfold in_int64, two63. lia. }
   rewrite Hget, Z.eqb_refl in Hdo. exists m. split; [exact Hdo|].
-  destruct Hfin as (F1 & F2 & F3 & F4 & F5). cbn [mp_msg] in *. split; [exact F5|]. split; [exact F1|].
-  intros t v Hl. apply (final_retrieval td (count_byte SOH (ser fs)) fs m t v); [|exact Hl]. unfold dp_final. cbn [mp_msg]. repeat split; assumption.
+  pose proof Hfin as (F1 & F2 & F3 & F4 & F5). split; [exact F5|]. split; [exact F1|].
+  intros t v Hl. exact (final_retrieval td fs m t v Hfin Hl).
 Qed.
 
 (* C11: a framed message whose BodyLength field does not announce the byte count of its fields is rejected *)
@@ -671,7 +687,7 @@ Proof.
   destruct (do_parsing_framed fs td ad Hfr Hng) as (m & Hfin & Hdo).
   destruct (c11_framed_shape fs Hfr) as (v8 & v9 & v35 & mid & v10 & Efs & _ & _ & Hmid).
   assert (v9' = v9) by (rewrite Efs in Efs'; inversion Efs'; reflexivity). subst v9'.
-  pose proof (final_retrieval td _ fs m TAG_BODY_LENGTH v9 Hfin) as Hr. rewrite Efs in Hr at 1.
+  pose proof (final_retrieval td fs m TAG_BODY_LENGTH v9 Hfin) as Hr. rewrite Efs in Hr at 1.
   specialize (Hr (framed_body_length_value v8 v9 v35 mid v10 Hmid)).
   unfold parsed_section in Hr. replace (is_header_field TAG_BODY_LENGTH td) with true in Hr by reflexivity.
   rewrite Hdo. unfold fm_get_int. rewrite Hr. cbn [bind]. unfold fix_int_read.
